@@ -42,6 +42,7 @@ Ltac guards H :=
   repeat match type of H with
          | (if ?c then _ else _) = Ok _ => destruct c eqn:?; [try discriminate H | try discriminate H]
          | match ?x with Some _ => _ | None => _ end = Ok _ => destruct x eqn:?; [| try discriminate H]
+         | (let (_, _) := ?p in _) = Ok _ => destruct p
          end;
   norm_guards.
 
@@ -149,14 +150,22 @@ Proof.
   destruct (f (o_addr r)), (g (o_addr r)); try tauto. intuition congruence.
 Qed.
 
+(* inversion of one successful UnbondedOracleFromProposal *)
+Ltac inv_gov1 H :=
+  unfold gov_unbond1 in H;
+  match type of H with context[match delegate_token ?a ?b ?c ?d with _ => _ end] =>
+    let tok := fresh "tok" in let DT := fresh "DT" in
+    destruct (delegate_token a b c d) as [tok|] eqn:DT; [|discriminate H] end;
+  match type of H with context[if ?c then _ else _] => destruct c; [discriminate H|] end;
+  match type of H with context[match stk_unbond ?a ?b ?c ?d ?e with _ => _ end] =>
+    let V' := fresh "V'" in let dl' := fresh "dl'" in let back := fresh "back" in let SU := fresh "SU" in
+    destruct (stk_unbond a b c d e) as [[[V' dl'] back]|] eqn:SU; [|discriminate H] end;
+  inversion H; subst; clear H.
+
 Lemma gov_unbond1_frame : forall rws s r s',
   gov_unbond1 rws (Some s) r = Some s' -> ids_match (recs s) r -> gov_frame s s'.
 Proof.
-  intros rws s r s' H Hr. unfold gov_unbond1 in H.
-  destruct (deleg s (o_addr r) (o_val r) =? 0); [discriminate|].
-  destruct (negb (memZ (o_val r) (vals s))); [discriminate|].
-  destruct (max_entries <=? count_ubd (o_addr r) (o_val r) (ubds s)); [discriminate|].
-  inversion H; subst; clear H. unfold gov_frame; proj. repeat split; auto.
+  intros rws s r s' H Hr. inv_gov1 H. unfold gov_frame; proj. repeat split; auto.
   unfold ids_match in Hr. destruct (recs s (o_addr r)) eqn:E; [|tauto].
   intros x. destruct (upd_cases _ (recs s) (o_addr r) (Some (mkOracle (o_addr r) (o_bridger r) (o_ext r) (o_amount r) (o_start r) false (o_val r) (o_slash r))) x) as [[-> ->]|[Hn ->]].
   - rewrite E. proj. tauto.
@@ -385,6 +394,8 @@ Proof.
   - unfold add_call in H. inversion H; subst. exact I.
   - unfold del_call in H. inversion H; subst. exact I.
   - unfold fund in H. inversion H; subst. exact I.
+  - unfold slash_val in H. destruct (negb (has_val s v)); inversion H; subst; exact I.
+  - unfold env_val in H. inversion H; subst. exact I.
   - eapply end_block_idx; eauto.
 Qed.
 
